@@ -271,7 +271,9 @@ pub fn run(ctx: &Ctx) {
         }
     });
     ctx.note("production_lengths", json!(lengths));
-    cli_roundtrips(ctx);
+    if !crate::lib_only() {
+        cli_roundtrips(ctx);
+    }
     ctx.require("cli round trip ok: files, output paths that already hold longer content", 4);
     ctx.require("cli round trip ok: pipes", 4);
     ctx.require("cli round trip ok: files, sender and recipient are the same key", 2);
